@@ -24,6 +24,7 @@ Comp(c, kw, only, body, a) == [t |-> "comp", c |-> c, kw |-> kw, only |-> only, 
 Fill(ne, dv, fv, a) == [t |-> "fill", ne |-> ne, dv |-> dv, fv |-> fv, a |-> a]
 For(x, xs, a) == [t |-> "for", x |-> x, xs |-> xs, a |-> a]
 El(id, a) == [t |-> "elem", id |-> id, a |-> a]
+Asg(x, e, dflt) == [t |-> "asg", x |-> x, e |-> e, dflt |-> dflt]
 Data(x, k, v, a, dflt) == [x |-> x, k |-> k, v |-> v, a |-> a, dflt |-> dflt]
 
 \* ---- the fixed component library ------------------------------------------
@@ -180,11 +181,16 @@ CondFills == IF Alphabet = "slots"
              ELSE IF Alphabet = "scope"
              THEN {[t |-> "with", x |-> v, e |-> C("kb"), a |-> << Fill(C(s), "", "", << Var("x"), Var("y") >>) >>]
                      : v \in {"x", "y"}, s \in {"a", "default"}}
+                  \* a complete plain fill that prints the names the assignment tags below bind
+                  \cup {Fill(C(s), "", "", << Var("v"), Var("y") >>) : s \in {"a", "default"}}
              ELSE {}
+\* scope: assignment tags placed directly in the body of a component with explicit fills (before / after / between
+\* the fills, also under the fill wrappers): a fresh name (v) and a name the page and the callee's data bind too (y)
+AsgTokens == IF Alphabet = "scope" THEN {Asg("v", V("x"), "dv"), Asg("y", V("w"), "dy")} ELSE {}
 Leaf == /\ n < MaxNodes
         /\ \/ ~InFillsBody(Len(stack)) /\ \E tok \in LeafTokens :
                 AddKid(IF tok.t = "text" THEN T("t" \o ToString(n + 1)) ELSE tok)
-           \/ InFillsBody(Len(stack)) /\ \E tok \in CondFills : AddKid(tok)
+           \/ InFillsBody(Len(stack)) /\ \E tok \in CondFills \cup AsgTokens : AddKid(tok)
         /\ n' = n + 1
 
 Open == /\ n < MaxNodes
@@ -268,7 +274,7 @@ KwReads(kw) == \E j \in 1..Len(kw) : kw[j][2].k = "v"
 ReadsVar(nodes, i) ==
   IF i > Len(nodes) THEN FALSE
   ELSE LET nd == nodes[i] IN
-       \/ nd.t \in {"var", "fld", "if", "for", "with", "defref"}
+       \/ nd.t \in {"var", "fld", "if", "for", "with", "defref", "asg"}
        \/ (nd.t \in {"comp", "provide"} /\ KwReads(nd.kw))
        \/ (nd.t = "fill" /\ nd.ne.k = "v")
        \/ ("a" \in DOMAIN nd /\ ReadsVar(nd.a, 1))
